@@ -315,7 +315,7 @@ func Spec() *core.Spec {
 		ID:    "C13",
 		Level: "exploration",
 		Rule: "exhaustive: 31 non-empty client subsets x 32 server subsets of {1.0..1.4} x server behaviour {conformant, discovery unsupported, lists versions not offered, unordered list, empty list} x {enforced, not enforced} against a scripted server that records every request header " +
-			"(two requests and one cloned client after each Dial; client options given in seeded order with duplicates), plus 31 x 31 against the library's own executor restricted with SetSupportedProtocolVersions; compared with a 10-line reference function. distinct = distinct configurations",
+			"(two requests and one cloned client after each Dial; client options given in seeded order with duplicates), plus 31 x 31 against the library's own executor restricted with SetSupportedProtocolVersions; compared with a 10-line reference function. every scripted case through Dial and through DialCluster; distinct = distinct configurations",
 		Required: []string{"dials.conformant", "dials.discovery-unsupported", "dials.lists-not-offered", "dials.unordered", "dials.empty-list", "dials.library-server", "dials.cluster", "expected_failures", "followup_headers"},
 		Families: []core.Family{
 			{Name: "scripted", Exhaustive: true, N: func(string) int { return 31 * 32 * 5 * 2 * 2 }, Run: scripted},
